@@ -74,7 +74,30 @@ def _var_of(leaf):
     return ('atom', a[1]), 'TF', frozenset({'T' if a[2] else 'F'})
 
 
-def _strip_memo(occ, other_vars):
+def _refusal_keys(e, pol, site):
+    """Keys of the raise effects of the if statement whose *failing* test gives this atom,
+    when that branch only refuses; None otherwise."""
+    from .conddrift import _from_refusing_exit, _owning_if
+    if not _from_refusing_exit(e, pol, site):
+        return None
+    par = e
+    while par is not None and not isinstance(par, ast.stmt):
+        par = getattr(par, '_parent', None)
+    if isinstance(par, ast.Assert):
+        return ['assert %s' % unparse(par.test)[:60]]
+    st = _owning_if(e)
+    if st is None:
+        return None
+    keys = []
+    for x in st.body:
+        for r in ast.walk(x):
+            if isinstance(r, ast.Raise):
+                keys.append('raise: raise %s %s' % (_exc_name(r), _message_key(r.exc)
+                                                     if r.exc is not None else ''))
+    return sorted(set(keys)) or None
+
+
+def _strip_memo(occ, other_vars, other_keys=None):
     """Memo-tagged conjuncts: kept as ordinary conjuncts when every leaf they
     test is also tested by the other tree, dropped otherwise."""
     out = []
@@ -86,6 +109,9 @@ def _strip_memo(occ, other_vars):
                 _vars(t[1], vs)
                 if set(vs) <= other_vars:
                     c2.append(t[1])
+            elif t[0] == 'rx':
+                if other_keys is None or any(k in other_keys for k in t[1]):
+                    c2.append(t[2])
             else:
                 c2.append(t)
         out.append(c2)
@@ -99,6 +125,8 @@ def _all_vars(occ, with_memo=True):
             if t[0] == 'memo':
                 if with_memo:
                     _vars(t[1], vs)
+            elif t[0] == 'rx':
+                _vars(t[2], vs)
             else:
                 _vars(t, vs)
     return vs
@@ -137,14 +165,14 @@ def _loose(v):
     return None
 
 
-def compare(ref_occ, cur_occ, limit=8192, ambiguous=()):
+def compare(ref_occ, cur_occ, limit=8192, ambiguous=(), ref_keys=None, cur_keys=None):
     """-> (verdict, witness)  verdict in ok / lost / extra / both / changed /
     incomparable."""
     if json.dumps(ref_occ, sort_keys=True) == json.dumps(cur_occ, sort_keys=True):
         return 'ok', ''
     ref_all, cur_all = set(_all_vars(ref_occ)), set(_all_vars(cur_occ))
-    ref_occ = _strip_memo(ref_occ, cur_all)
-    cur_occ = _strip_memo(cur_occ, ref_all)
+    ref_occ = _strip_memo(ref_occ, cur_all, cur_keys)
+    cur_occ = _strip_memo(cur_occ, ref_all, ref_keys)
     rv, cv = _all_vars(ref_occ), _all_vars(cur_occ)
     only_r, only_c = set(rv) - set(cv), set(cv) - set(rv)
     if only_r and only_c:
@@ -247,6 +275,7 @@ def _formula(pm, f, pi, memo, kind, n):
     iters = set(_enclosing_iters(f, n)) if kind == 'call' else set()
     conj = []
     for e, pol in pi.at(n):
+        rx = _refusal_keys(e, pol, n)
         is_memo = _is_memo_test(f, e, memo)
         if kind == 'call' and not is_memo:
             nulled = _nulled_local(f, e, pol)
@@ -264,7 +293,12 @@ def _formula(pm, f, pi, memo, kind, n):
         t = t if pol else ['not', t]
         # a test on a registry / memo table of the function: kept, but compared only when the
         # other tree tests the same thing (a new cache is decided by the memo-key rule)
-        conj.append(['memo', t] if is_memo else t)
+        if rx is not None:
+            # the atom only says that an earlier refusal did not fire: compared when the other
+            # tree has that refusal too (a function may gain checks freely)
+            conj.append(['rx', rx, t])
+        else:
+            conj.append(['memo', t] if is_memo else t)
     for t, part, k in pi.trys_at(n):
         if part == 'handler':
             conj.append(['leaf', ['handler', '%s@%d' % (
@@ -380,7 +414,8 @@ def run(pm, ctx, rule, funcs, kinds, title, suffix, min_funcs=1, extra_is_violat
             if c is None:
                 continue
             n_eff += 1
-            verdict, wit = compare(r['occ'], c['occ'], ambiguous=_ambiguous(f))
+            verdict, wit = compare(r['occ'], c['occ'], ambiguous=_ambiguous(f),
+                                   ref_keys=set(ref[q]), cur_keys=set(cur))
             if verdict in ('lost', 'both', 'changed') or \
                     (verdict == 'extra' and r['kind'] in extra_is_violation):
                 problems.append((verdict, key, wit))
@@ -392,7 +427,8 @@ def run(pm, ctx, rule, funcs, kinds, title, suffix, min_funcs=1, extra_is_violat
             if rk == ck:
                 r_all = [conj for k in rk for conj in ref[q][k]['occ']]
                 c_all = [conj for k in ck for conj in cur[k]['occ']]
-                v, _ = compare(r_all, c_all, ambiguous=_ambiguous(f))
+                v, _ = compare(r_all, c_all, ambiguous=_ambiguous(f), ref_keys=set(ref[q]),
+                               cur_keys=set(cur))
                 if v == 'ok':
                     problems = [p for p in problems if not p[1].startswith('raise')]
         ctx.check(rule, not problems,
@@ -462,7 +498,8 @@ def run_refusals(pm, ctx, rule, prefixes, exc_names, title, what, error_lists=('
             if key not in r:
                 continue
             matched += 1
-            verdict, wit = compare(r[key]['occ'], c['occ'], ambiguous=_ambiguous(f))
+            verdict, wit = compare(r[key]['occ'], c['occ'], ambiguous=_ambiguous(f),
+                                   ref_keys=set(r), cur_keys=set(cur))
             inst = '%s: %s reported under its confirmed condition' % (f.short, key[:60])
             if verdict not in ('ok', 'incomparable') and c['kind'] == 'raise':
                 rk = sorted(k for k, v in r.items() if v['kind'] == 'raise')
@@ -470,7 +507,7 @@ def run_refusals(pm, ctx, rule, prefixes, exc_names, title, what, error_lists=('
                 if rk == ck:
                     v2, _ = compare([cj for k in rk for cj in r[k]['occ']],
                                     [cj for k in ck for cj in cur[k]['occ']],
-                                    ambiguous=_ambiguous(f))
+                                    ambiguous=_ambiguous(f), ref_keys=set(r), cur_keys=set(cur))
                     if v2 == 'ok':
                         verdict = 'ok'      # the same inputs are refused, by a sibling check
             if verdict in ('ok', 'incomparable'):
